@@ -514,10 +514,12 @@ compact_tuple_sketch<S, A> compact_tuple_sketch<S, A>::deserialize(std::istream&
   A alloc(allocator);
   std::vector<Entry, AllocEntry> entries(alloc);
   if (!is_empty) {
-    entries.reserve(num_entries);
     std::unique_ptr<S, deleter_of_summaries> summary(alloc.allocate(1), deleter_of_summaries(1, false, allocator));
     for (size_t i = 0; i < num_entries; ++i) {
+      // num_entries is not trusted: the capacity at most doubles as the entries arrive, and ends at num_entries
+      if (i == entries.capacity()) entries.reserve(std::min<size_t>(num_entries, std::max<size_t>(2 * i, 1 << 12)));
       const auto key = read<uint64_t>(is);
+      if (!is.good()) throw std::runtime_error("error reading from std::istream");
       sd.deserialize(is, summary.get(), 1);
       entries.push_back(Entry(key, std::move(*summary)));
       (*summary).~S();
